@@ -88,7 +88,7 @@ def check_proofs(res, M, lst, root, positions):
 
 def shards(tier):
     nmax = 9 if tier == "quick" else 12
-    return [{"kind": "exh", "n": n} for n in range(1, nmax + 1)] + [{"kind": "rand", "i": i} for i in range(4)] + [{"kind": "blocks", "i": i} for i in range(2)]
+    return [{"kind": "exh", "n": n} for n in range(1, nmax + 1)] + [{"kind": "rand", "i": i} for i in range(4)] + [{"kind": "blocks", "i": i} for i in range(2)] + [{"kind": "overlap"}]
 
 
 def block_edits(txs, extra):
@@ -104,6 +104,58 @@ def block_edits(txs, extra):
             yield "swap", txs[:i] + [txs[j]] + txs[i + 1:j] + [txs[i]] + txs[j + 1:]
     if n > 1:
         yield "reward_only", txs[:1]
+
+
+def run_overlap(res, tier, seed):
+    """two commitment computations overlap (the miner builds a template while the network thread validates a block):
+    a second thread computes the commitment of list N while the first is in the middle of computing that of list M.
+    Afterwards both (and repeated calls) must still equal the reference."""
+    import threading
+    from vf import build as b
+    from skepticoin import consensus as C
+    from vf.keys import KEYS
+    n_rounds = 40 if tier == "quick" else 600
+    for k in range(n_rounds):
+        M_ = [R.RTx([(R.sha256d(b"m%d.%d" % (k, q)), q, ("se",))], [(q + 1, KEYS[q % len(KEYS)].pub)]) for q in range(1 + k % 5)]
+        N_ = [R.RTx([(R.sha256d(b"n%d.%d" % (k, q)), q, ("se",))], [(q + 2, KEYS[(q + 1) % len(KEYS)].pub)]) for q in range(1 + (k // 5) % 4)]
+        skM, skN = [b.to_sk_tx(t) for t in M_], [b.to_sk_tx(t) for t in N_]
+        wantM, wantN = R.merkle_root([t.id() for t in M_]), R.merkle_root([t.id() for t in N_])
+        orig = C.get_merkle_root
+        state = {}
+
+        def hooked(lst):
+            if "t" not in state:
+                out = {}
+                t = threading.Thread(target=lambda: out.setdefault("r", C.calc_merkle_root_hash(skN)))
+                t.daemon = True
+                state["t"], state["out"] = t, out
+                t.start()
+                t.join(0.2)
+            return orig(lst)
+
+        C.get_merkle_root = hooked
+        try:
+            gotM = C.calc_merkle_root_hash(skM)
+        finally:
+            C.get_merkle_root = orig
+        if "t" in state:
+            state["t"].join(5)
+        res.evaluations += 1
+        res.nontrivial("overlap%d" % k)
+        # afterwards, in both orders (whichever list was computed last may be the one that is remembered wrongly)
+        seq = [("N again", skN, wantN), ("M again", skM, wantM), ("N third", skN, wantN)] if k % 2 == 0 else \
+              [("M again", skM, wantM), ("N again", skN, wantN), ("M third", skM, wantM)]
+        got = {"M during": gotM, "N overlapped": state.get("out", {}).get("r")}
+        want = {"M during": wantM, "N overlapped": wantN}
+        for key, lst, w_ in seq:
+            got[key] = C.calc_merkle_root_hash(lst)
+            want[key] = w_
+        for key in got:
+            if got[key] != want[key]:
+                res.fail("header_commitment", "commitment-wrong-after-overlapping-computations", "calc_merkle_root_hash returned a wrong commitment (%s) when two computations overlapped" % key,
+                         {"n": len(M_), "overlap": k})
+                return
+    res.sample({"overlapping_commitment_computations": n_rounds})
 
 
 def run_blocks(res, tier, seed, i):
@@ -157,6 +209,10 @@ def run(shard, tier, seed):
     res = Result()
     if shard["kind"] == "blocks":
         run_blocks(res, tier, seed, shard["i"])
+        return res
+    if shard["kind"] == "overlap":
+        env.import_repo()
+        run_overlap(res, tier, seed)
         return res
     if shard["kind"] == "exh":
         n = shard["n"]
@@ -231,6 +287,9 @@ def replay(case):
     n = case["n"]
     if "block_case" in case:
         run_blocks(res, "quick", 1, 0)
+        return res.failures
+    if "overlap" in case:
+        run_overlap(res, "quick", 1)
         return res.failures
     if "proof_position" in case:
         lst = ids(n)
